@@ -20,7 +20,7 @@ __CPROVER_ensures((sq_thrown==1) == (xi<x[0] || xi>x[nx-1]))
 __CPROVER_ensures(sq_thrown==0 || sq_thrown==1)
 __CPROVER_ensures(sq_thrown==0 ==> (__CPROVER_return_value<=nx-2 && x[__CPROVER_return_value]<=xi && xi<=x[__CPROVER_return_value+1]))
 {
-//@BODY file=src/SQuIDS.cpp sig=/unsigned\s+int\s+SQuIDS::Get_i\s*\(/ rules=common
+//@BODY file=src/SQuIDS.cpp sig=/unsigned\s+int\s+SQuIDS::Get_i\s*\(/ rules=common,minmax
 //@SUB /(?<![\w.>])x\[([^\]]+)\]/SQ_RD(x,\1)/ min=2
 //@LOOP 0 __CPROVER_loop_invariant(nl<nr && nr<=nx-1 && x[nl]<=xi && xi<=x[nr])
 //@+ __CPROVER_decreases(nr-nl)
